@@ -359,4 +359,5 @@ def check(repo, rep, tier):
   c07b.rule_knn(repo, rep)
   c07b.rule_comb(repo, rep)
   c07b.rule_wrap_pairs(repo, rep)
+  c07b.rule_pairs_interp(repo, rep)
   c17.rule_rng(repo, rep, only_constraints=True)
